@@ -41,7 +41,8 @@ TRUST_W = ['stubs/ptypes_stubs.c (-DCQV_PT_WRITER): thrift_write_* replaced by b
            'assert specs/parquet_thrift_table.h (written from parquet.thrift); buffer effects of the encoder not modelled '
            '(status may become an error at any primitive)']
 W = dict(prop='C13', overlays=['contracts/ptypes.ovl'], includes=['.'], harness='harness/C13/ptypes.c',
-         extra_sources=['stubs/mem_stubs.c', 'stubs/ptypes_stubs.c'], trusted=TRUST_W, checks=['--bounds-check'],
+         extra_sources=['stubs/mem_stubs.c', 'stubs/ptypes_stubs.c'], trusted=TRUST_W, checks=['--bounds-check'], object_bits=12,
+         soft=[r'^dereference failure', r' in R_OK\('],  # validity of the metadata arrays is not a C13 obligation (reported, not counted)
          unwind=13)  # the only unwound loop: ghost-state havoc in the harness (12 records)
 
 
@@ -55,7 +56,10 @@ def writer_job(fn, entry, callees=(), loops=0, **kw):
 JOBS += [
     writer_job('write_statistics', 'h_write_statistics'),
     writer_job('write_logical_type', 'h_write_logical_type'),
-    writer_job('write_schema_element', 'h_write_schema_element', callees=['write_logical_type']),
+    writer_job('write_schema_element', 'h_write_schema_element', callees=['write_logical_type'],
+               note='FINDING: required field 4 (name) is not written when elem->name == NULL'),
+    writer_job('write_schema_element', 'h_write_schema_element', callees=['write_logical_type'], name='c13_write_schema_element_named',
+               defines=['CQV_PT_WRITER=1', 'CQV_FN_write_schema_element=1', 'CQV_SE_NAMED=1']),
     writer_job('write_column_metadata', 'h_write_column_metadata', callees=['write_statistics'], loops=2),
     writer_job('write_column_chunk', 'h_write_column_chunk', callees=['write_column_metadata']),
     writer_job('write_row_group', 'h_write_row_group', callees=['write_column_chunk'], loops=1),
